@@ -34,6 +34,11 @@ def Partition (p : Proj) : Prop :=
   (keys p.services).Nodup ∧ (keys p.disabled).Nodup ∧ ∀ k ∈ keys p.services, k ∉ keys p.disabled
 instance (p : Proj) : Decidable (Partition p) := by unfold Partition; exact inferInstance
 
+/-- every service, enabled or not, is filed under its own `Name` (what the loader guarantees; the dependents
+policy of `ForEachService` goes through `Name`).  The spec clauses are only decided on such projects. -/
+def Named (p : Proj) : Prop := ∀ kv ∈ p.services ++ p.disabled, kv.2.name = kv.1
+instance (p : Proj) : Decidable (Named p) := by unfold Named; exact inferInstance
+
 /-- the service recorded under `k`, wherever it is -/
 def find (p : Proj) (k : String) : Option Svc :=
   match lookup k p.services with
